@@ -346,6 +346,8 @@ def run(prog, ctx):
     # reader co-simulation, including saturated filters (every bit set) and whole-word bit counts
     C.import_rules(res, prog, dict(ctx, families=["bloom"]), "C09.R", "C11", ("C11.L", "C11.K"), "Bloom image read back by its own reader", 6,
                    key_filter=lambda k: "|bloom|" in k)
+    # ---------------- C09.K a decision taken after a call that changes a counter looks at the counter after it (common.stale_count_decisions)
+    C.stale_count_rule(res, prog, "C09.K", "bloom::", "Bloom filter")
     res.explanation = ("formula and structural rules over the %d functions reachable from the BloomFilter mutators and contains(): index formula on a "
                        "grid, double hashing seeds, sibling agreement of check/set, word/bit split, count maintenance" % len(reach))
     res.not_decided = "measured false-positive rate"
